@@ -4,7 +4,7 @@
 # quick tier of the given checks against it, prints which checks raise a VIOLATION, and
 # restores /repo. Never leaves the patch applied.
 set -u
-PATCH="$1"; shift
+PATCH="$(readlink -f "$1")"; shift
 CHECKS="${*:-C01 C02 C03 C04 C05 C06 C07 C08 C09 C10 C11 C12 C13 C14 C15 C16 C17}"
 cd /repo || exit 2
 if [ -n "$(git status --porcelain --untracked-files=no)" ]; then echo "/repo is not clean"; exit 2; fi
